@@ -11,6 +11,10 @@
 // at which level to switch from computations by level to computations by block
 #define CHANGE_MODE_N 1024
 
+#ifdef SPQLIOS_VERIF
+__thread spqlios_verif_ntt_trace_fn spqlios_verif_ntt_trace = 0;
+#endif
+
 __always_inline __m256i split_precompmul_si256(__m256i inp, __m256i powomega, const uint64_t h, const __m256i mask) {
   const __m256i inp_low = _mm256_and_si256(inp, mask);
   const __m256i t1 = _mm256_mul_epu32(inp_low, powomega);
@@ -183,6 +187,7 @@ EXPORT void q120_ntt_bb_avx2(const q120_ntt_precomp* const precomp, q120b* const
 
   __m256i* const begin = (__m256i*)data_ptr;
   const __m256i* const end = ((__m256i*)data_ptr) + n;
+  SPQLIOS_VERIF_NTT_TRACE(0, 0, n, begin, end, itData, powomega, precomp);
 
   if (CHECK_BOUNDS) {
     double bs __attribute__((unused)) = max_bit_size((void*)begin, (void*)end);
@@ -192,6 +197,7 @@ EXPORT void q120_ntt_bb_avx2(const q120_ntt_precomp* const precomp, q120b* const
 
   // first iteration a_k.omega^k
   ntt_iter_first(begin, end, itData, powomega);
+  SPQLIOS_VERIF_NTT_TRACE(0, 1, n, begin, end, itData, powomega, precomp);
 
   if (CHECK_BOUNDS) {
     double bs __attribute__((unused)) = max_bit_size((void*)begin, (void*)end);
@@ -214,6 +220,7 @@ EXPORT void q120_ntt_bb_avx2(const q120_ntt_precomp* const precomp, q120b* const
     } else {
       ntt_iter(nn, begin, end, itData, powomega);
     }
+    SPQLIOS_VERIF_NTT_TRACE(0, 2, nn, begin, end, itData, powomega, precomp);
 
     if (CHECK_BOUNDS) {
       double bs __attribute__((unused)) = max_bit_size((void*)begin, (void*)end);
@@ -243,6 +250,7 @@ EXPORT void q120_ntt_bb_avx2(const q120_ntt_precomp* const precomp, q120b* const
         } else {
           ntt_iter(nn, begin1, end1, itData, powomega);
         }
+        SPQLIOS_VERIF_NTT_TRACE(0, 2, nn, begin1, end1, itData, powomega, precomp);
 
         if (CHECK_BOUNDS) {
           double bs __attribute__((unused)) = max_bit_size((uint64_t*)begin1, (uint64_t*)end1);
@@ -256,6 +264,7 @@ EXPORT void q120_ntt_bb_avx2(const q120_ntt_precomp* const precomp, q120b* const
     }
   }
 
+  SPQLIOS_VERIF_NTT_TRACE(0, 3, n, begin, end, itData, powomega, precomp);
   if (CHECK_BOUNDS) {
     double bs __attribute__((unused)) = max_bit_size((void*)begin, (void*)end);
     LOG("Iter %3" PRIu64 " - %lf %" PRIu64 "\n", UINT64_C(1), bs, precomp->output_bit_size);
@@ -403,6 +412,7 @@ EXPORT void q120_intt_bb_avx2(const q120_ntt_precomp* const precomp, q120b* cons
 
   __m256i* const begin = (__m256i*)data_ptr;
   const __m256i* const end = ((__m256i*)data_ptr) + n;
+  SPQLIOS_VERIF_NTT_TRACE(1, 0, n, begin, end, itData, powomega, precomp);
 
   if (CHECK_BOUNDS) {
     double bs __attribute__((unused)) = max_bit_size((void*)begin, (void*)end);
@@ -430,6 +440,7 @@ EXPORT void q120_intt_bb_avx2(const q120_ntt_precomp* const precomp, q120b* cons
         } else {
           intt_iter(nn, begin1, end1, itData, powomega);
         }
+        SPQLIOS_VERIF_NTT_TRACE(1, 2, nn, begin1, end1, itData, powomega, precomp);
 
         if (CHECK_BOUNDS) {
           double bs __attribute__((unused)) = max_bit_size((uint64_t*)begin1, (uint64_t*)end1);
@@ -453,6 +464,7 @@ EXPORT void q120_intt_bb_avx2(const q120_ntt_precomp* const precomp, q120b* cons
     } else {
       intt_iter(nn, begin, end, itData, powomega);
     }
+    SPQLIOS_VERIF_NTT_TRACE(1, 2, nn, begin, end, itData, powomega, precomp);
 
     if (CHECK_BOUNDS) {
       double bs __attribute__((unused)) = max_bit_size((void*)begin, (void*)end);
@@ -470,6 +482,8 @@ EXPORT void q120_intt_bb_avx2(const q120_ntt_precomp* const precomp, q120b* cons
   } else {
     ntt_iter_first(begin, end, itData, powomega);
   }
+  SPQLIOS_VERIF_NTT_TRACE(1, 1, n, begin, end, itData, powomega, precomp);
+  SPQLIOS_VERIF_NTT_TRACE(1, 3, n, begin, end, itData, powomega, precomp);
 
   if (CHECK_BOUNDS) {
     double bs __attribute__((unused)) = max_bit_size((void*)begin, (void*)end);
